@@ -1577,7 +1577,7 @@ def run(ck):
     ]
     _preload()
     rng = ck.rng
-    nrand = 900 if ck.tier == "quick" else 8000
+    nrand = 900 if ck.tier == "quick" else 4500
     hist = [(m, [tuple(o) for o in ops]) for m, ops in SCRIPTED]
     hist += [gen_history(rng) for _ in range(nrand)]
     jobs, meta = [], []
@@ -1649,7 +1649,7 @@ def run(ck):
 def run_conc(ck):
     """Concurrent part: remove_rpc_object / make_* in a second thread while the owner thread stops the context."""
     rng = ck.rng
-    nconf = 110 if ck.tier == "quick" else 1200
+    nconf = 110 if ck.tier == "quick" else 800
     confs = [([(1, "obj", True, False)], ("remove", 1), 0), ([(1, "task", False, True), (2, "inst", True, True)], ("remove", 1), 1),
              ([(1, "obj", True, False)], ("make", 2, "obj", True, True, False), 0),
              ([(1, "obj", True, False)], ("make", 2, "task", True, False, True), 1)]
@@ -1666,7 +1666,7 @@ def run_conc(ck):
     # systematic: all schedules with <= 2 preemptions at synchronisation granularity of two short scenarios
     dfs = []
     for (pop, bop, nh) in confs[:1] + confs[2:3]:
-        nmax = 250 if ck.tier == "quick" else 1500
+        nmax = 250 if ck.tier == "quick" else 800
         for res in dsched.explore_dfs(scenario_conc, (pop, bop, nh, False), preemption_bound=2, max_runs=nmax, nproc=16, wall_timeout=60.0):
             if res["status"] == "_summary":
                 ck.coverage.setdefault("conc_dfs", {})["%s/%s" % (bop[0], len(pop))] = {
@@ -1722,7 +1722,7 @@ def run_call(ck):
     """Calls through a proxy (blocking, non-blocking + wait, lock requests; local proxies and a peer context) racing with
     remove_rpc_object / stop of the object; line-level switch points inside the hand-over and the worker's tail."""
     rng = ck.rng
-    nconf = 70 if ck.tier == "quick" else 900
+    nconf = 70 if ck.tier == "quick" else 600
     confs = [("remove", [("block", "ping")], False), ("remove", [("nb", "ping"), ("block", "boom")], False),
              ("stop", [("block", "ping"), ("nb", "islocked")], False), ("remove", [("block", "ping")], True)]
     confs += [gen_call(rng) for _ in range(nconf)]
@@ -1736,7 +1736,7 @@ def run_call(ck):
             meta.append((op, callers, remote, ly, strat, seed))
     results = dsched.run_forked(jobs, nproc=16, wall_timeout=60.0)
     dfs = []
-    nmax = 250 if ck.tier == "quick" else 2500
+    nmax = 250 if ck.tier == "quick" else 800
     for res in dsched.explore_dfs(scenario_call, ("remove", [("block", "ping")], False, False), preemption_bound=2, max_runs=nmax,
                                   nproc=16, wall_timeout=60.0):
         if res["status"] == "_summary":
@@ -1786,7 +1786,15 @@ def replay_call(c):
     print("handlers after:", o.get("handlers_after"), "worker alive:", o.get("worker_alive"), "re-use of the name:", o.get("reuse"))
     bad = oracle_call(c["op"], callers, res)
     print("oracle:", bad or "property holds on this schedule")
-    return 1 if bad else 0
+    acc = True
+    if res["status"] == "ok" and not c["remote"]:
+        import common
+        ck = common.Check("C12")
+        out = ck.model_eval("C12.CallCorr", "check_case %s" % coq_call_case(c["op"], callers, o))
+        ck.clean_cases()
+        acc = "= true" in out
+        print("interleaving model (hand-over in one region, sweep reaches every issued call, first outcome kept) accepts the trace:", acc)
+    return 1 if (bad or not acc) else 0
 
 
 def coq_tasks_case(pop, start_order, plain, owner_ops, ok, nrel):
@@ -1810,7 +1818,7 @@ def run_tasks(ck):
     wait -, timed waits, loop tasks, a task that finishes its sleep first, a task raising on stop, a plain thread on the same
     receiver, tasks never started) present at remove_rpc_object / stop, in every order."""
     rng = ck.rng
-    nconf = 110 if ck.tier == "quick" else 2500
+    nconf = 110 if ck.tier == "quick" else 1200
     confs = [([(1, "getsig", 0), (2, "getsig", 0)], [1, 0], None, [("stop",)]),
              ([(1, "getsig", 0), (2, "getsig", 0)], [0, 1], None, [("stop",)]),
              ([(1, "getsig", 0), (2, "getsig", 0), (3, "getsig", 0)], [2, 0, 1], None, [("remove", 2), ("stop",)]),
